@@ -138,6 +138,13 @@ func oracleC09(x *Exec, so *StepObs) {
 				return
 			}
 		}
+		// an operation that lost the race must not rewrite another operation's revision record
+		for _, e := range evs {
+			if e.proc == r.Proc && e.kind == "update" {
+				fail("loser-rewrites-no-record", "status="+e.status, fmt.Sprintf("%s (%s) created no revision, failed with %q, and yet rewrote the record of revision %d with status %s", r.Proc, r.Op.Op, trunc(r.Err, 80), e.rev, e.status))
+				return
+			}
+		}
 	}
 	// nobody creates a revision while another operation's revision is pending
 	state := map[int]string{}
@@ -169,6 +176,35 @@ func oracleC09(x *Exec, so *StepObs) {
 	}
 	if len(created) > 0 {
 		x.Sim.Probe(fmt.Sprintf("c09-winners=%d", len(created)))
+	}
+	// a winner that reported success: the revision it created still exists and is deployed or superseded
+	for _, r := range so.Results {
+		if !created[r.Proc] || !r.OK {
+			continue
+		}
+		for rev, p := range creator {
+			if p != r.Proc {
+				continue
+			}
+			lr := so.After.Rev(rev)
+			pruned := false
+			for _, e := range evs {
+				if e.kind == "delete" && e.rev == rev {
+					pruned = true
+				}
+			}
+			if lr == nil && pruned {
+				continue // history limit of a later operation
+			}
+			if lr == nil || (lr.Status != "deployed" && lr.Status != "superseded") {
+				st := "absent"
+				if lr != nil {
+					st = lr.Status
+				}
+				fail("winner-ends-deployed", "none", fmt.Sprintf("%s (%s) reported success but its revision %d is %s at quiescence", r.Proc, r.Op.Op, rev, st))
+				return
+			}
+		}
 	}
 	ledgerInvariants(x, so, P, opName, "none"+ctx)
 }
@@ -208,6 +244,7 @@ func genC09(seed, index uint64, tier string) *Plan {
 			op.MaxHistory = 1 + g.N(3)
 		}
 		op.NoHooks = g.Chance(0.5)
+		op.Atomic = g.Chance(0.2)
 		grp = append(grp, op)
 	}
 	p.Steps = append(p.Steps, Step{Group: grp})
